@@ -14,6 +14,12 @@ CLAIMED = {
  "C04": dict(tech="deterministic simulation: dagger/spider laws under seeded device schedules (SimKind) against reference cospan composition; corrupted leg codomains as data faults at the constructor",
              text="Exploration by deterministic simulation: dagger (exact swap, involution, contravariance, over tensor), spider fusion against reference cospan composition, identity/symmetry as spiders, spider/half_spider acceptance under corrupted leg codomains; strict versions on control, Vec and perturbed schedules, lax versions on the Vec device. Evidence, not proof.",
              ref="§5 C04"),
+ "C09": dict(tech="deterministic simulation: generated operation histories on the lax builder against a list model, with the failing operation (label-conflict quotient) as injected fault, repair-and-retry, restart through a simulated disk, fork",
+             text="Exploration by deterministic simulation of histories: ~1.3M (quick) / ~27M (thorough) seeded histories of builder steps interleaved with unifications and quotient calls on a real lax (open) hypergraph, compared field by field with a list model after every step; quotient results are validated as surjections with exactly the union-find classes as fibres, failed quotients must leave the diagram equal to the pre-call clone, a second quotient must be the identity. Evidence, not proof.",
+             ref="§5 C09"),
+ "C11": dict(tech="deterministic simulation: generated builder histories against a list model, rejected out-of-range deletions, restart = serde_json through a simulated disk with short writes/reads and EINTR, fork",
+             text="Exploration by deterministic simulation of histories: ~1.1M (quick) / ~22M (thorough) seeded histories of builder calls (incl. deletions with duplicate and out-of-range identifiers, relabelling with right/wrong lengths) on a real lax (open) hypergraph, refinement against a list model after every step, identifiers and renumbering maps compared, JSON restart through a simulated disk and documented field names. Evidence, not proof.",
+             ref="§5 C11"),
  "C15": dict(tech="deterministic simulation: layering under seeded device schedules (sort ties, sparse key order) with a kernel-launch watchdog for bounded liveness; oracle = reference dependency graph",
              text="Exploration by deterministic simulation: layer() and layered_operations() on dense, layered and cyclic generated diagrams under control, Vec and perturbed schedules; every call must return within a launch budget (logical clock) and without panic; layers are checked against a reference dependency graph (visited flags, strict increase, from 0, as many layers as the longest chain, grouped form exactly once). Evidence, not proof.",
              ref="§5 C15"),
